@@ -967,6 +967,7 @@ z3::expr Real::term() const { return id ? P->terms[id] : numeral(c); }
 Real::operator bool() const { return *this != Real(0); }
 
 Real from_expr(const z3::expr& e, uint8_t sign) { return mk(e, sign); }
+Real exact(double v) { return mk(numeral(v), 0); }
 Real rational(long p, long q) { return mk(ctx().real_val((int64_t) p, (int64_t) q), 0); }
 Real exact_mul(const Real& a, const Real& b) { return mk((a.term() * b.term()).simplify(), sign_mul(a.sign(), b.sign())); }
 
